@@ -217,6 +217,35 @@ def apalache_inductive(spec, scratch, init="Init", indinit="IndInit", inv="IndIn
     return dict(spec=spec, invariant=inv, tool="apalache-mc", obligations=out)
 
 
+def apalache_state(spec, scratch, inv, expect_holds=True, init="Init", cinit="ConstInit", length=0, extra_files=(), timeout=600):
+    """one Apalache obligation over a symbolic initial state: `inv` holds in every state satisfying `init` (length 0), or - with
+    expect_holds=False - Apalache must produce a counterexample (a refuted variant kept for non-vacuity)."""
+    d = tempfile.mkdtemp(prefix="apalache-", dir=scratch.dir)
+    try:
+        for f in (spec,) + tuple(extra_files):
+            shutil.copy(os.path.join(SPECS, f), d)
+        cmd = ["apalache-mc", "check", "--out-dir=" + os.path.join(d, "out"), "--init=" + init, "--inv=" + inv, "--length=%d" % length]
+        if cinit:
+            cmd.append("--cinit=" + cinit)
+        cmd.append(spec)
+        t0 = time.time()
+        try:
+            r = subprocess.run(cmd, cwd=d, stdout=subprocess.PIPE, stderr=subprocess.STDOUT, text=True, timeout=timeout)
+        except subprocess.TimeoutExpired:
+            raise Infra("apalache timeout (%ds) on %s (%s)" % (timeout, spec, inv))
+        wall = time.time() - t0
+        held = r.returncode == 0 and "EXITCODE: OK" in r.stdout and "The outcome is: NoError" in r.stdout
+        refuted = "state invariant 0 violated" in r.stdout and "The outcome is: Error" in r.stdout
+        if expect_holds and not held:
+            raise Infra("apalache did not prove %s of %s (rc=%d):\n%s" % (inv, spec, r.returncode, r.stdout[-3000:]))
+        if not expect_holds and not refuted:
+            raise Infra("apalache was expected to refute %s of %s, it did not (rc=%d):\n%s" % (inv, spec, r.returncode, r.stdout[-3000:]))
+        log("[apalache] %s: %s %s in %.1fs" % (spec, inv, "proved" if expect_holds else "refuted as expected", wall))
+        return dict(spec=spec, invariant=inv, tool="apalache-mc", outcome="proved" if expect_holds else "refuted (expected)", wall_s=round(wall, 1))
+    finally:
+        shutil.rmtree(d, ignore_errors=True)
+
+
 def model_counterexample(spec, cfg, inv, scratch, workers="auto", timeout=1200, heap=None):
     """run a configuration that models a (repaired or recorded) defect faithfully and REQUIRE that TLC finds the
     violation of `inv` - evidence that the specification is sharp enough to exhibit the defect."""
